@@ -4,6 +4,7 @@ import (
 	"fmt"
 	"go/token"
 	"go/types"
+	"strings"
 
 	"golang.org/x/tools/go/ssa"
 )
@@ -24,6 +25,10 @@ func init() {
 		Run: runC03,
 	})
 	addMutants("C03",
+		mutant{"DelRead always removes the descriptor", "internal/poll_linux.go",
+			"\t\t*events ^= PollerReadEvent\n\t\tif *events != 0 {", "\t\t*events ^= PollerReadEvent\n\t\tif *events&PollerReadEvent != 0 {", "C03-R2k"},
+		mutant{"setRW adds when the other direction is registered", "internal/poll_linux.go",
+			"\t\tif oldEvents == 0 {\n\t\t\terr = p.add(", "\t\tif oldEvents&flag == 0 {\n\t\t\terr = p.add(", "C03-R2k"},
 		mutant{"DelWrite drops the read interest", "internal/poll_linux.go",
 			"\tif *events&PollerWriteEvent == PollerWriteEvent {\n\t\tatomic.AddInt64(&p.pending, -1)\n\t\t*events ^= PollerWriteEvent", "\tif *events&PollerReadEvent == PollerReadEvent {\n\t\tatomic.AddInt64(&p.pending, -1)\n\t\t*events ^= PollerReadEvent", "C03-R2d"},
 		mutant{"SetWrite registers the read interest", "internal/poll_linux.go",
@@ -592,7 +597,7 @@ func runC03(c *Ctx) {
 	// ------------------------------------------------------------------------------------------------ R3
 	// the kernel is told exactly what the slot records: the mask handed to epoll_ctl(ADD/MOD) is the value of
 	// Slot.Events after the update on that path (not the flag being added or removed, not a stale copy)
-	c.rule("C03-R2k", "the event mask programmed into epoll is the slot's recorded interest mask", 3)
+	c.rule("C03-R2k", "the event mask programmed into epoll is the slot's recorded interest mask; EPOLL_CTL_DEL only with an empty mask, EPOLL_CTL_ADD only from an empty mask", 6)
 	{
 		createEv := p.Fn("internal", "createEvent")
 		eventsF := p.Field("internal", "Slot", "Events")
@@ -661,6 +666,84 @@ func runC03(c *Ctx) {
 		}
 		if n == 0 {
 			c.bad(p.Method("internal", "poller", "setRW"), "kernel mask", p.Method("internal", "poller", "setRW").Pos(), "no epoll event is built any more (anchor moved)")
+		}
+		// the operation matches the mask: the descriptor leaves the epoll set (EPOLL_CTL_DEL) only when no interest is
+		// left in Slot.Events, and enters it (EPOLL_CTL_ADD) only when there was none before
+		ctlOp := func(name string) int64 {
+			k, _ := constantInt(p.extPkg("syscall").Scope().Lookup(name).(*types.Const).Val())
+			return k
+		}
+		sysCtl := ctlOp("SYS_EPOLL_CTL")
+		prims := map[*ssa.Function]string{}
+		for _, fn := range internalFuncs {
+			eachInstr(fn, func(in ssa.Instruction) {
+				call, ok := in.(*ssa.Call)
+				if !ok || call.Call.StaticCallee() == nil || !strings.HasPrefix(call.Call.StaticCallee().String(), "syscall.Syscall") || len(call.Call.Args) < 3 || !isConstInt(call.Call.Args[0], sysCtl) {
+					return
+				}
+				switch k, _ := constInt(call.Call.Args[2]); k {
+				case ctlOp("EPOLL_CTL_DEL"):
+					prims[fn] = "del"
+				case ctlOp("EPOLL_CTL_ADD"):
+					prims[fn] = "add"
+				}
+			})
+		}
+		nOps := 0
+		for _, fn := range internalFuncs {
+			for _, call := range allCalls(fn) {
+				kind := prims[call.Call.StaticCallee()]
+				if kind == "" || prims[fn] != "" {
+					continue
+				}
+				nOps++
+				good := false
+				for _, l := range guardsOf(call.Block()) {
+					op, x, y, ok := l.cmp()
+					if !ok || op != token.EQL {
+						continue
+					}
+					if isConstInt(x, 0) {
+						x, y = y, x
+					}
+					ld, isLd := stripConv(x).(*ssa.UnOp)
+					if !isConstInt(y, 0) || !isLd || ld.Op != token.MUL {
+						continue
+					}
+					if fv, _ := fieldAddrOf(ld.X); fv != eventsF {
+						continue
+					}
+					// del: the mask as it is now (no store between the load and the call); add: the mask as it was
+					// before this function changed it (no store before the load)
+					okL := true
+					eachInstr(fn, func(xi ssa.Instruction) {
+						st, isSt := xi.(*ssa.Store)
+						if !isSt {
+							return
+						}
+						if fv, _ := fieldAddrOf(st.Addr); fv != eventsF {
+							return
+						}
+						if kind == "del" && reachesFrom(ld, st) && reachesFrom(st, call) {
+							okL = false
+						}
+						if kind == "add" && reachesFrom(st, ld) {
+							okL = false
+						}
+					})
+					if okL {
+						good = true
+					}
+				}
+				if kind == "del" {
+					c.check(good, fn, "kernel removal", call.Pos(), "EPOLL_CTL_DEL only when Slot.Events is empty", "the descriptor is removed from the epoll set although Slot.Events may still record an interest (the removal is not guarded by Slot.Events == 0 read after the update): the operation parked for the other direction never completes and its next registration fails with ENOENT")
+				} else {
+					c.check(good, fn, "kernel addition", call.Pos(), "EPOLL_CTL_ADD only when Slot.Events was empty", "the descriptor is added to the epoll set although it may already be in it (the addition is not guarded by the previous Slot.Events == 0): the registration fails with EEXIST while an operation of the other direction is parked")
+				}
+			}
+		}
+		if nOps < 3 {
+			c.bad(p.Method("internal", "poller", "setRW"), "kernel removal", p.Method("internal", "poller", "setRW").Pos(), "the epoll_ctl ADD/DEL primitives or their call sites were not found (anchor moved)")
 		}
 	}
 
